@@ -87,6 +87,8 @@ def run(ck):
     nontrivial = set()
 
     def add_case(tag, nodes, ob):
+        if tag.startswith("direct_"):
+            return       # corpus entries outside the identity model's fragment (processors specialised through parameters): direct oracle only
         try:
             lits.append(G.case_lit(nodes, ob))
             meta.append((tag, nodes))
